@@ -205,6 +205,55 @@ class WBSlave(Agent):
                 self._respond(v, w)
 
 
+class CombSlave(Agent):
+    """A zero-wait-state classic Wishbone memory built from real logic (a Memory with an asynchronous read port; ack = cyc & stb & allow,
+    combinationally, in the very cycle the request is presented), which a registered agent cannot be. `allow` is a register this
+    agent drives from a literal pattern, so that zero-wait and delayed answers mix. The agent mirrors the memory from the transfers
+    it sees (read_word / log, as WBSlave)."""
+
+    def __init__(self, top, bus, bits, init_word, pattern, shift=0, name="s"):
+        """bits: number of address bits (above `shift`) that index the memory; init_word(bus address) gives the initial content."""
+        from migen import Module, Memory, Signal, Replicate
+        self.bus, self.bits, self.init_word, self.pattern, self.shift = bus, bits, init_word, pattern, shift
+        nsel = len(bus.sel)
+        m = Module()
+        mem = Memory(len(bus.dat_w), 1 << bits, init=[init_word(a << shift) for a in range(1 << bits)], name="combmem")
+        rp = mem.get_port(async_read=True)
+        wp = mem.get_port(write_capable=True, we_granularity=8)
+        m.specials += mem, rp, wp
+        self.allow = Signal(reset=1)
+        m.comb += [rp.adr.eq(bus.adr[shift:shift + bits]), bus.dat_r.eq(rp.dat_r), bus.ack.eq(bus.cyc & bus.stb & self.allow),
+                   wp.adr.eq(bus.adr[shift:shift + bits]), wp.dat_w.eq(bus.dat_w), wp.we.eq(Replicate(bus.ack & bus.we, nsel) & bus.sel)]
+        top.submodules += m
+        self.reads = (bus.cyc, bus.stb, bus.we, bus.adr, bus.dat_w, bus.sel, bus.ack)
+        self.mem, self.log = {}, []
+        self.name = name
+        self.n = 0
+        self.err_adr = None
+
+    def read_word(self, adr):
+        adr = (adr >> self.shift) << self.shift
+        return self.mem.get(adr, self.init_word(adr))
+
+    def step(self, v, t, w):
+        b = self.bus
+        if v[b.cyc] and v[b.stb] and v[b.ack]:
+            adr = v[b.adr]
+            assert (adr >> self.shift) < (1 << self.bits), "CombSlave: address %#x beyond the %d words of the memory (harness sizing)" % (adr, 1 << self.bits)
+            if v[b.we]:
+                new = self.read_word(adr)
+                for i in range(len(b.sel)):
+                    if (v[b.sel] >> i) & 1:
+                        new = (new & ~(0xff << (8 * i))) | (v[b.dat_w] & (0xff << (8 * i)))
+                self.mem[(adr >> self.shift) << self.shift] = new
+            self.n += 1
+            self.log.append({"t": t, "we": v[b.we], "adr": adr, "dat_w": v[b.dat_w], "sel": v[b.sel], "err": False})
+            self.bench.event(self.name, "xfer", t, v[b.we], adr, v[b.dat_w] if v[b.we] else None, v[b.sel])
+        pat = self.pattern
+        w(self.allow, 1 if t + 1 >= len(pat) else int(pat[t + 1] == "1"))
+
+
+
 class PortRecorder(Agent):
     """Samples a list of signals every cycle and hands the row to `check(t, row)` (online invariants)."""
 
